@@ -7,7 +7,12 @@ import (
 	"fmt"
 	"math/rand"
 	"net/http"
+	"net/http/httptest"
 	"strings"
+
+	"github.com/go-openapi/loads"
+	"github.com/go-openapi/runtime"
+	"github.com/go-openapi/runtime/middleware/untyped"
 
 	"github.com/go-openapi/runtime/middleware"
 	"github.com/go-openapi/runtime/middleware/header"
@@ -20,6 +25,7 @@ import (
 //   parse     ParseAccept on header lines (with the ranges the generator intended, when known)
 //   neg       NegotiateContentType
 //   enc       NegotiateContentEncoding
+//   handler   a GET through the real API handler of a one-operation description: 406 and no handler iff nothing is acceptable
 
 type c07Range struct {
 	Value Bs `json:"value"`
@@ -56,6 +62,9 @@ type c07Obs struct {
 	Rest     Bs        `json:"rest,omitempty"`
 	Specs    []c07Spec `json:"specs,omitempty"`
 	R        Bs        `json:"r,omitempty"`
+	Status   int       `json:"status,omitempty"`
+	Ran      bool      `json:"ran,omitempty"`
+	Route    []Bs      `json:"route_offers,omitempty"` // MatchedRoute.Produces: the offers in the order the route really uses
 }
 
 type c07 struct{}
@@ -235,7 +244,7 @@ func (c07) Gen(r *rand.Rand, tier string, i int) any {
 		}
 		ls, intended, ext := c07Header(r)
 		return c07In{Kind: "parse", Lines: ls, Intended: intended, ExtAfterQ: ext}
-	case k < 18:
+	case k < 16:
 		var ls []Bs
 		var ext bool
 		switch r.Intn(10) {
@@ -250,6 +259,25 @@ func (c07) Gen(r *rand.Rand, tier string, i int) any {
 			def = Bs(c07Media(r, false))
 		}
 		return c07In{Kind: "neg", Lines: ls, Offers: c07Offers(r), Default: def, ExtAfterQ: ext}
+	case k < 18:
+		var ls []Bs
+		switch r.Intn(8) {
+		case 0:
+		case 1:
+			ls = []Bs{Bs(c07Junk(r))}
+		default:
+			ls, _, _ = c07Header(r)
+		}
+		seen := map[string]bool{}
+		var offers []Bs
+		for j := 1 + r.Intn(3); j > 0; j-- {
+			o := c07Media(r, false)
+			if !seen[o] {
+				seen[o] = true
+				offers = append(offers, Bs(o))
+			}
+		}
+		return c07In{Kind: "handler", Lines: ls, Offers: offers}
 	default:
 		encs := []string{"gzip", "deflate", "br", "identity", "*"}
 		var parts []string
@@ -305,9 +333,38 @@ func (c07) Run(inAny any) any {
 		case "enc":
 			req := &http.Request{Header: c07Hdr("Accept-Encoding", in.Lines)}
 			obs.R = Bs(middleware.NegotiateContentEncoding(req, bsList(in.Offers)))
+		case "handler":
+			c07RunHandler(in, &obs)
 		}
 	})
 	return obs
+}
+
+func c07RunHandler(in c07In, obs *c07Obs) {
+	prod, _ := json.Marshal(bsList(in.Offers))
+	doc := fmt.Sprintf(`{"swagger":"2.0","info":{"title":"t","version":"1"},"paths":{"/x":{"get":{"produces":%s,"responses":{"200":{"description":"ok"}}}}}}`, prod)
+	spec, err := loads.Analyzed(json.RawMessage(doc), "")
+	if err != nil {
+		panic(err)
+	}
+	api := untyped.NewAPI(spec)
+	for _, o := range in.Offers {
+		api.RegisterProducer(string(o), runtime.TextProducer())
+	}
+	api.RegisterOperation("get", "/x", runtime.OperationHandlerFunc(func(interface{}) (interface{}, error) {
+		obs.Ran = true
+		return "ok", nil
+	}))
+	ctx := middleware.NewContext(spec, api, nil)
+	h := ctx.APIHandler(nil)
+	req := httptest.NewRequest("GET", "/x", nil)
+	req.Header = c07Hdr("Accept", in.Lines)
+	if mr, _, ok := ctx.RouteInfo(req); ok {
+		obs.Route = toBs(mr.Produces)
+	}
+	rec := httptest.NewRecorder()
+	h.ServeHTTP(rec, req)
+	obs.Status = rec.Code
 }
 
 func (c07) Coq(inAny any, obsAny any) string {
@@ -331,6 +388,8 @@ func (c07) Coq(inAny any, obsAny any) string {
 		return fmt.Sprintf("CParse %s %s %s %s", lines, coqBool(obs.Panicked), out, intended)
 	case "neg":
 		return fmt.Sprintf("CNeg %s %s %s %s %s", lines, coqBytesList(bsList(in.Offers)), coqBytes(string(in.Default)), coqBool(obs.Panicked), coqBytes(string(obs.R)))
+	case "handler":
+		return fmt.Sprintf("CHandler %s %s %s %d %s", lines, coqBytesList(bsList(obs.Route)), coqBool(obs.Panicked), obs.Status, coqBool(obs.Ran))
 	case "enc":
 		return fmt.Sprintf("CEnc %s %s %s %s", lines, coqBytesList(bsList(in.Offers)), coqBool(obs.Panicked), coqBytes(string(obs.R)))
 	}
@@ -377,6 +436,11 @@ func (c07) Category(inAny any, obsAny any) (string, bool) {
 		default:
 			return "neg/match", matches >= 2
 		}
+	case "handler":
+		if obs.Status == 406 {
+			return "handler/406", true
+		}
+		return "handler/served", len(in.Lines) > 0
 	default:
 		return "enc", len(in.Lines) > 0 && len(in.Offers) >= 2
 	}
